@@ -90,13 +90,15 @@ def examine_merge(c, r, out):
             if de != want:
                 out.append(('C10:default', '%s = %s: default of %s is %s, expected %s' % (c.show(), show_sig(r), name_of(nm), de, want)))
         anns = [(q[3], q[4]) for q in cons if q[3] is not None]
-        if anns and all(a == anns[0] for a in anns):
-            want = anns[0]
+        # agreement is on the annotation; the wrapper kept is that of one of the
+        # contributors carrying it (a hand-built / class parameter may have none)
+        if anns and all(a[0] == anns[0][0] for a in anns):
+            want = anns[0] if (an, ua) not in anns else (an, ua)
         else:
             want = (None, ('E',))
         if (an, ua) != want:
             key = 'C10:annotation'
-            if len(anns) >= 3 and len(set(anns)) > 1:
+            if len(anns) >= 3 and len({a[0] for a in anns}) > 1:
                 key = 'C10:annotation-fold'      # candidate known finding: left fold is not associative
             out.append((key, '%s = %s: annotation of %s is %s, expected %s' % (c.show(), show_sig(r), name_of(nm), (an, ua), want)))
         if not all(kind_ok(q[1], k) for q in cons):
